@@ -424,7 +424,7 @@ func messageBodies(v ssa.Value) []ssa.Value {
 func (c *Ctx) noStdoutInLibrary() {
 	allowed := map[string]string{"ConsoleIndexStore.StoreIndex": "writes the index to the console by design"}
 	n := 0
-	for _, fn := range c.libFuncs() {
+	for _, fn := range c.libFuncsAll() {
 		key := fnKey(topOf(fn))
 		for _, b := range fn.Blocks {
 			for _, ins := range b.Instrs {
@@ -462,7 +462,7 @@ func (c *Ctx) noStdoutInLibrary() {
 func (c *Ctx) retriedReaderFresh() {
 	makers := map[string]bool{"io.Pipe": true, "bytes.NewReader": true, "bytes.NewBuffer": true, "bytes.NewBufferString": true, "strings.NewReader": true, "os.Open": true, "bufio.NewReader": true}
 	n, cyc := 0, 0
-	for _, fn := range c.libFuncs() {
+	for _, fn := range c.libFuncsAll() {
 		for _, b := range fn.Blocks {
 			inCycle := false
 			for _, s := range b.Succs {
